@@ -63,7 +63,10 @@ import (
 	"net"
 	"os"
 	"os/exec"
+	"path/filepath"
+	"regexp"
 	"runtime"
+	"runtime/debug"
 	"sort"
 	"strconv"
 	"strings"
@@ -147,12 +150,26 @@ func (p *c07Payload) Write(ctx context.Context, o thrift.TProtocol) error {
 	if p.truncate {
 		return nil
 	}
-	o.WriteI64(ctx, p.Tag)
-	o.WriteFieldEnd(ctx)
-	o.WriteFieldBegin(ctx, "blob", thrift.STRING, 2)
-	o.WriteBinary(ctx, p.Blob)
-	o.WriteFieldEnd(ctx)
-	o.WriteFieldStop(ctx)
+	// every error is returned, as the emitted Write does (a write refused by the bounded buffer must
+	// abort the message, not be followed by more writes)
+	if err := o.WriteI64(ctx, p.Tag); err != nil {
+		return err
+	}
+	if err := o.WriteFieldEnd(ctx); err != nil {
+		return err
+	}
+	if err := o.WriteFieldBegin(ctx, "blob", thrift.STRING, 2); err != nil {
+		return err
+	}
+	if err := o.WriteBinary(ctx, p.Blob); err != nil {
+		return err
+	}
+	if err := o.WriteFieldEnd(ctx); err != nil {
+		return err
+	}
+	if err := o.WriteFieldStop(ctx); err != nil {
+		return err
+	}
 	return o.WriteStructEnd(ctx)
 }
 
@@ -236,7 +253,7 @@ func c07Recv(op string, pf *frugal.FProtocolFactory, handler func(frugal.FContex
 // ---------- scenarios ----------
 
 type c07Operation struct {
-	kind  byte // V R O G F B W U
+	kind  byte // V R O G H X F B W U S
 	tag   int
 	raw   []byte
 	topic int // V R O G: index of the topic it is published on
@@ -282,10 +299,10 @@ func (s c07Scn) opsArg() string {
 		switch o.kind {
 		case 'B', 'W':
 			parts[i] = string(o.kind)
-		case 'U':
-			parts[i] = "U"
+		case 'U', 'S':
+			parts[i] = string(o.kind)
 			if o.sub != 0 {
-				parts[i] = "U" + strconv.Itoa(o.sub)
+				parts[i] = string(o.kind) + strconv.Itoa(o.sub)
 			}
 		case 'R':
 			parts[i] = "R" + hx(o.raw) + suffix
@@ -298,7 +315,7 @@ func (s c07Scn) opsArg() string {
 	return strings.Join(parts, ",")
 }
 
-// ops syntax: V<tag>[.<topic>] O… G… R<hex>[.<topic>] F<tag> B W U[<sub>]
+// ops syntax: V<tag>[.<topic>] O… G… H… X… R<hex>[.<topic>] F<tag> B W U[<sub>] S[<sub>]
 func c07ParseOps(s string) ([]c07Operation, bool) {
 	if s == "." || s == "" {
 		return nil, true
@@ -309,7 +326,7 @@ func c07ParseOps(s string) ([]c07Operation, bool) {
 			return nil, false
 		}
 		body, topic := p[1:], 0
-		if k := strings.IndexByte(body, '.'); k >= 0 && p[0] != 'B' && p[0] != 'W' && p[0] != 'U' && p[0] != 'F' {
+		if k := strings.IndexByte(body, '.'); k >= 0 && p[0] != 'B' && p[0] != 'W' && p[0] != 'U' && p[0] != 'S' && p[0] != 'F' {
 			t, err := strconv.Atoi(body[k+1:])
 			if err != nil || t < 0 || t > 64 {
 				return nil, false
@@ -322,7 +339,7 @@ func c07ParseOps(s string) ([]c07Operation, bool) {
 				return nil, false
 			}
 			ops = append(ops, c07Operation{kind: p[0]})
-		case 'U':
+		case 'U', 'S':
 			k := 0
 			if body != "" {
 				n, err := strconv.Atoi(body)
@@ -331,13 +348,13 @@ func c07ParseOps(s string) ([]c07Operation, bool) {
 				}
 				k = n
 			}
-			ops = append(ops, c07Operation{kind: 'U', sub: k})
+			ops = append(ops, c07Operation{kind: p[0], sub: k})
 		case 'R':
 			if body != "-" && (len(body)%2 != 0 || strings.Trim(body, "0123456789abcdef") != "") {
 				return nil, false
 			}
 			ops = append(ops, c07Operation{kind: 'R', raw: unhx(body), topic: topic})
-		case 'V', 'O', 'G', 'F':
+		case 'V', 'O', 'G', 'F', 'H', 'X':
 			n, err := strconv.Atoi(body)
 			if err != nil || n < 0 {
 				return nil, false
@@ -356,7 +373,7 @@ func (s c07Scn) racing() bool {
 		if o.kind == 'U' && (i == 0 || s.ops[i-1].kind != 'B') {
 			// nothing owed before it? then nothing is in flight either
 			for _, p := range s.ops[:i] {
-				if p.kind != 'F' && p.kind != 'B' && p.kind != 'U' && p.kind != 'W' {
+				if p.kind != 'F' && p.kind != 'B' && p.kind != 'U' && p.kind != 'W' && p.kind != 'X' && p.kind != 'S' {
 					return true
 				}
 			}
@@ -739,9 +756,16 @@ func c07Run(s c07Scn) *c07Result {
 	type pubInfo struct{ opid string }
 	published := map[int]pubInfo{}
 	var cbTotal, startCount, startSeen int64 // over all subscriptions: progress / "somebody is busy"
+	handlerErr := map[int]bool{}             // H tags: the (Errorable) handler returns an error for them
+	for _, o := range s.ops {
+		if o.kind == 'H' {
+			handlerErr[o.tag] = true
+		}
+	}
 
 	type subState struct {
 		topicID    int
+		cbf        frugal.FAsyncCallback
 		tr         frugal.FSubscriberTransport
 		delivered  []c07Delivery
 		cb, errs   int64
@@ -777,6 +801,9 @@ func c07Run(s c07Scn) *c07Result {
 			if s.delayUs > 0 {
 				time.Sleep(time.Duration(s.delayUs) * time.Microsecond)
 			}
+			if handlerErr[tag] {
+				return fmt.Errorf("handler refuses %d", tag)
+			}
 			return nil
 		}
 		inner := c07Recv(c07Op, binFactory, handler)
@@ -790,6 +817,7 @@ func c07Run(s c07Scn) *c07Result {
 			atomic.AddInt64(&cbTotal, 1)
 			return err
 		}
+		st.cbf = cb
 		st.tr, _ = provider.NewSubscriber()
 		var subErr error
 		if o := guard(c07Watchdog, func() { subErr = st.tr.Subscribe(topicName(tid), cb) }); o != "" || subErr != nil {
@@ -815,14 +843,17 @@ func c07Run(s c07Scn) *c07Result {
 	}
 	rawPub.Open()
 
-	publish := func(top, op string, tag int, truncate bool) {
+	publishBlob := func(top, op string, tag int, truncate bool, blob []byte) error {
 		fctx := frugal.NewFContext(fmt.Sprintf("cid-%d", tag))
 		fctx.AddRequestHeader("k", fmt.Sprintf("v%d", tag))
 		opid, _ := fctx.RequestHeader("_opid")
 		mu.Lock()
 		published[tag] = pubInfo{opid}
 		mu.Unlock()
-		if err := client.Publish(fctx, op, top, &c07Payload{Tag: int64(tag), Blob: c07Blob(tag), truncate: truncate}); err != nil {
+		return client.Publish(fctx, op, top, &c07Payload{Tag: int64(tag), Blob: blob, truncate: truncate})
+	}
+	publish := func(top, op string, tag int, truncate bool) {
+		if err := publishBlob(top, op, tag, truncate, c07Blob(tag)); err != nil {
 			fail("Publish returned %v", err)
 		}
 	}
@@ -877,6 +908,39 @@ func c07Run(s c07Scn) *c07Result {
 		case 'G':
 			publish(topicName(o.topic), c07Op, o.tag, true)
 			owe(o.topic, -1, true)
+		case 'H': // a valid message whose handler returns an error: delivered (once), the callback reports the error
+			publish(topicName(o.topic), c07Op, o.tag, false)
+			owe(o.topic, o.tag, true)
+		case 'X': // larger than the publisher's size limit: refused by Publish, nothing reaches the broker
+			limit := rawPub.GetPublishSizeLimit()
+			if limit == 0 || limit > 1<<24 {
+				fail("bad-config")
+				continue
+			}
+			err := publishBlob(topicName(o.topic), c07Op, o.tag, false, make([]byte, limit))
+			if errClass(err) != "err:tooLarge" {
+				fail("Publish of a message above the size limit returned %v, not REQUEST_TOO_LARGE", err)
+			}
+		case 'S': // a NEW transport from the same provider takes the place of an unsubscribed subscription
+			if o.sub >= len(subs) || subs[o.sub].subscribed {
+				fail("bad-config")
+				continue
+			}
+			st := subs[o.sub]
+			st.tr, _ = provider.NewSubscriber()
+			var subErr error
+			if out := guard(c07Watchdog, func() { subErr = st.tr.Subscribe(topicName(st.topicID), st.cbf) }); out != "" || subErr != nil {
+				fail("re-Subscribe failed: %s %v", out, subErr)
+				wedged = true
+				break
+			}
+			if err := conns.subSync(); err != nil {
+				fail("harness: %v", err)
+			}
+			if !st.tr.IsSubscribed() {
+				fail("IsSubscribed false after Subscribe (cycle)")
+			}
+			st.subscribed, st.unsub = true, "none"
 		case 'F':
 			publish(c07Foreign(topicName(0), o.tag), c07Op, o.tag, false)
 		case 'R':
@@ -1523,14 +1587,226 @@ func c07Retry(scns []c07Scn, outs []c07Out) {
 	}
 }
 
+// ---------- LENGTH / REPETITION: cases longer than every capacity of the code ----------
+
+var (
+	c07CapOnce sync.Once
+	c07CapMax  int
+	c07CapSrc  string
+)
+
+// c07Capacity reads the capacity constants of the code under test from its SOURCE at run time: every
+// `make(chan T, N)` (N a literal, or an identifier defined as `N = <int>` in the package) in lib/go's
+// transports and in the go-stomp client the harness is linked with. Values above 4096 are sizes, not queue
+// capacities. Falls back to 64 when the sources cannot be located.
+func c07Capacity() (int, string) {
+	c07CapOnce.Do(func() {
+		c07CapMax, c07CapSrc = 64, "fallback"
+		var dirs []string
+		if bi, ok := debug.ReadBuildInfo(); ok {
+			for _, d := range bi.Deps {
+				switch d.Path {
+				case "github.com/Workiva/frugal/lib/go":
+					if d.Replace != nil {
+						dirs = append(dirs, d.Replace.Path)
+					}
+				case "github.com/go-stomp/stomp":
+					mc := os.Getenv("GOMODCACHE")
+					if mc == "" {
+						home, _ := os.UserHomeDir()
+						mc = filepath.Join(home, "go", "pkg", "mod")
+					}
+					v := d.Version
+					if d.Replace != nil {
+						v = d.Replace.Version
+					}
+					dirs = append(dirs, filepath.Join(mc, "github.com", "go-stomp", "stomp@"+v))
+				}
+			}
+		}
+		mk := regexp.MustCompile(`make\(chan [^,()]+,\s*([A-Za-z_][\w.]*|\d+)\s*\)`)
+		found, best := 0, 0
+		for _, dir := range dirs {
+			files, _ := filepath.Glob(filepath.Join(dir, "*.go"))
+			var all strings.Builder
+			texts := map[string]string{}
+			for _, f := range files {
+				if strings.HasSuffix(f, "_test.go") {
+					continue
+				}
+				b, err := os.ReadFile(f)
+				if err != nil {
+					continue
+				}
+				texts[f] = string(b)
+				all.Write(b)
+				all.WriteByte('\n')
+			}
+			whole := all.String()
+			for _, t := range texts {
+				for _, m := range mk.FindAllStringSubmatch(t, -1) {
+					tok := m[1]
+					n, err := strconv.Atoi(tok)
+					if err != nil {
+						if k := strings.LastIndexByte(tok, '.'); k >= 0 {
+							tok = tok[k+1:]
+						}
+						def := regexp.MustCompile(`\b` + regexp.QuoteMeta(tok) + `\s*(?::=|=)\s*(\d+)\b`).FindStringSubmatch(whole)
+						if def == nil {
+							continue
+						}
+						n, _ = strconv.Atoi(def[1])
+					}
+					if n > 0 && n <= 4096 {
+						found++
+						if n > best {
+							best = n
+						}
+					}
+				}
+			}
+		}
+		if found > 0 {
+			c07CapMax, c07CapSrc = best, fmt.Sprintf("from-source(%d-channel-capacities)", found)
+		}
+	})
+	return c07CapMax, c07CapSrc
+}
+
+var c07LongKinds = []string{
+	"nats", "nats-b0", "nats-b1", "nats-b5", "nats-b64", "nats-b200", "nats-g", "nats-f", "nats-q", "nats-d", "nats-e", "nats+d", "nats-f+d",
+	"stomp", "stomp-p", "stomp-u", "stomp+m", "stomp-p+m",
+}
+
+var c07LongShapes = []string{"total", "short", "garbage", "foreign-op", "bad-payload", "handler-error", "oversize", "mixed", "cycles"}
+
+// c07GenLong: one subscription, N = 2·max(capacities, the case's own queue length and worker count)+k
+// messages of the shape's kind — in total / of each kind of bad message separately — with good messages
+// interleaved (every good one owed exactly once, in order for one worker), or N Subscribe/Unsubscribe
+// cycles on one provider with deliveries in every cycle.
+func c07GenLong(r *Rng, tr, shape string) c07Scn {
+	s := c07Scn{tr: tr, w: 1 + r.Intn(4)}
+	if c07SingleWorker(tr) {
+		s.w = 1
+	}
+	capMax, _ := c07Capacity()
+	_, sk, pk, _ := c07SplitTr(tr)
+	if len(sk) >= 2 && sk[0] == 'b' {
+		if q, _ := strconv.Atoi(sk[1:]); q > capMax {
+			capMax = q
+		}
+	}
+	if s.w > capMax {
+		capMax = s.w
+	}
+	n := 2*capMax + 3 + r.Intn(5)
+	limited := strings.HasPrefix(tr, "nats") || pk == "m"
+	if shape == "oversize" && !limited {
+		shape = "mixed"
+	}
+	tag := 0
+	good := func() { tag++; s.ops = append(s.ops, c07Operation{kind: 'V', tag: tag}) }
+	bad := func(kind string) {
+		tag++
+		switch kind {
+		case "short":
+			s.ops = append(s.ops, c07Operation{kind: 'R', raw: r.Bytes(r.Intn(4))})
+		case "garbage":
+			raw := c07RawMsg(r)
+			for len(raw) < 4 {
+				raw = c07RawMsg(r)
+			}
+			s.ops = append(s.ops, c07Operation{kind: 'R', raw: raw})
+		case "foreign-op":
+			s.ops = append(s.ops, c07Operation{kind: 'O', tag: tag})
+		case "bad-payload":
+			s.ops = append(s.ops, c07Operation{kind: 'G', tag: tag})
+		case "handler-error":
+			s.ops = append(s.ops, c07Operation{kind: 'H', tag: tag})
+		case "oversize":
+			s.ops = append(s.ops, c07Operation{kind: 'X', tag: tag})
+		}
+	}
+	switch shape {
+	case "total":
+		for i := 0; i < n; i++ {
+			good()
+			if i%40 == 39 {
+				s.ops = append(s.ops, c07Operation{kind: 'B'})
+			}
+		}
+	case "cycles":
+		for i := 0; i < n; i++ {
+			good()
+			if r.Chance(30) {
+				bad("foreign-op")
+			}
+			good()
+			s.ops = append(s.ops, c07Operation{kind: 'B'}, c07Operation{kind: 'U'}, c07Operation{kind: 'S'})
+		}
+		good()
+	case "mixed":
+		kinds := []string{"short", "garbage", "foreign-op", "bad-payload", "handler-error"}
+		for i := 0; i < 3*n; i++ { // n of the rejected kinds alone would not do: only 4 of 5 reach the callback
+			bad(kinds[r.Intn(len(kinds))])
+			if i%7 == 6 {
+				good()
+			}
+		}
+		good()
+	default:
+		for i := 0; i < n; i++ {
+			bad(shape)
+			if i%9 == 8 {
+				good()
+			}
+			if shape == "oversize" && i >= 12+capMax/8 && i < n-2 {
+				i = n - 2 // a dozen megabyte-sized refusals make the point; the count that matters is at the subscriber
+			}
+		}
+		good()
+	}
+	s.ops = append(s.ops, c07Operation{kind: 'B'})
+	if r.Chance(50) {
+		s.ops = append(s.ops, c07Operation{kind: 'U'})
+		tag++
+		s.ops = append(s.ops, c07Operation{kind: 'V', tag: tag})
+	}
+	return s
+}
+
 func runC07RT(r *Rng, n int) {
 	scns := make([]c07Scn, n)
+	long := map[int]string{}
+	// long cases: every run covers transport kinds × shapes round-robin from a seed-dependent offset
+	nLong := n / 22
+	if nLong < 2 {
+		nLong = 2
+	}
+	if nLong > n {
+		nLong = n
+	}
+	space := len(c07LongKinds) * len(c07LongShapes)
+	off := r.Intn(space)
 	for i := range scns {
+		if i < nLong {
+			j := (off + i*37) % space // 37 is coprime to the size of the table: all pairs before any repeats
+			tr, shape := c07LongKinds[j%len(c07LongKinds)], c07LongShapes[j/len(c07LongKinds)]
+			scns[i] = c07GenLong(r, tr, shape)
+			long[i] = shape
+			continue
+		}
 		scns[i] = c07Gen(r)
 	}
+	capMax, src := c07Capacity()
+	Stat(fmt.Sprintf("capacity-constant-max=%d:%s", capMax, src))
 	outs := c07Supervise(scns, 4)
 	c07Retry(scns, outs)
 	for i := range scns {
+		if sh, ok := long[i]; ok {
+			Stat("long:" + sh)
+			Stat("long-transport:" + scns[i].tr)
+		}
 		c07Report(scns[i], outs[i])
 	}
 }
